@@ -540,6 +540,21 @@ def rule_c(ctx: Ctx) -> None:
                 ctx.fail(m, st, where, st,
                          f"class body mutates {norm(target)} ({src}), which is not a container created in this class body: the edit leaks "
                          f"into the parent/shared table and depends on import order")
+    # import-time calls of in-place helpers (new_trie(keys, <table>), ...) on a table owned by another class / module
+    for w in writes:
+        if w.func is not None or "in-place helper" not in w.kind:
+            continue
+        nb += 1
+        owner_cls = m_cls = None
+        c_ = w.module.enclosing_class(w.node)
+        own = (c_ is not None and w.target.startswith(c_.key + ".")) or (c_ is None and w.target.startswith(w.module.name + ":"))
+        where = f"{(c_.key if c_ else w.module.name)}:<import-time body>"
+        if own:
+            ctx.ok(f"{where}|{norm(w.node)}", {"stmt": norm(w.node), "target": w.target, "own_table": True})
+        else:
+            ctx.fail(w.module, w.node, where, w.node,
+                     f"import-time code hands {w.target} to an in-place helper ({w.kind}): the shared table of another class / module is edited when this "
+                     f"module happens to be imported, so every user of that table sees a result that depends on which dialects were loaded before")
     ctx.count("class_body_mutations", nb)
     ctx.min_instances("class_body_mutations", nb, 3)
     # metaclass TRANSFORMS.pop ownership (S2)
